@@ -24,13 +24,20 @@ def _match(pattern, cls):
 class Known:
     def __init__(self, pid):
         data = load()
-        self.entries = [e for e in data.get("findings", []) if e["property"] == pid]
+        self.pid = pid
+        self.all = data.get("findings", [])
+        self.entries = [e for e in self.all if e["property"] == pid]
         self.seen = {}
 
     def lookup(self, cls):
         for e in self.entries:
             if _match(e["class"], cls):
                 return e
+        # C11 re-runs the C01/C02/C03/C10 oracles in pooled modes: [mode, "C0x", <class of that property>...]
+        if self.pid == "C11" and len(cls) > 2 and cls[1] in ("C01", "C02", "C03", "C10"):
+            for e in self.all:
+                if e["property"] == cls[1] and _match(e["class"], cls[2:]):
+                    return e
         return None
 
     def note(self, entry):
@@ -39,8 +46,13 @@ class Known:
 
     def lines(self, pid):
         out = []
-        for e in self.entries:
+        listed = list(self.entries)
+        if pid == "C11":
+            listed += [e for e in self.all if e["property"] in ("C01", "C02", "C03", "C10")
+                       and json.dumps(e["class"]) in self.seen]
+        for e in listed:
             k = json.dumps(e["class"])
-            if k in self.seen:
-                out.append(f"KNOWN-FINDING: property={pid} class={k} {e['what']} (seen {self.seen[k]}x)")
+            n = self.seen.get(k, 0)
+            tail = f"seen in {n} run(s) of this batch" if n else "not encountered in this batch"
+            out.append(f"KNOWN-FINDING: property={pid} class={k} {e['what']} ({tail})")
         return out
